@@ -572,6 +572,38 @@ func sliceLenAff(s, L ssa.Value, depth int) aff {
 	switch x := s.(type) {
 	case *ssa.MakeSlice:
 		return affineOf(x.Len, L, depth+1)
+	case *ssa.Slice:
+		// buf[lo:hi] of a local array (var buf [4]byte) or of a constant-size make
+		if al, ok := x.X.(*ssa.Alloc); ok {
+			if at, ok := derefType(al.Type()).Underlying().(*types.Array); ok {
+				lo, hi := aff{0, 0, true}, aff{0, at.Len(), true}
+				if x.Low != nil {
+					lo = affineOf(x.Low, L, depth+1)
+				}
+				if x.High != nil {
+					hi = affineOf(x.High, L, depth+1)
+				}
+				if lo.OK && hi.OK {
+					return aff{hi.A - lo.A, hi.B - lo.B, true}
+				}
+			}
+			return aff{}
+		}
+		// s[lo:hi] of a slice of known length
+		base := sliceLenAff(x.X, L, depth+1)
+		if !base.OK || depth > 6 {
+			return aff{}
+		}
+		lo, hi := aff{0, 0, true}, base
+		if x.Low != nil {
+			lo = affineOf(x.Low, L, depth+1)
+		}
+		if x.High != nil {
+			hi = affineOf(x.High, L, depth+1)
+		}
+		if lo.OK && hi.OK {
+			return aff{hi.A - lo.A, hi.B - lo.B, true}
+		}
 	case *ssa.Call:
 		if f := x.Call.StaticCallee(); f != nil && f.Name() == "GetBuffer" && relPkg(f) == "protocol" {
 			if getBufferReturnsLen(f) {
@@ -666,46 +698,200 @@ func (s *r4state) key() string {
 	return strings.Join(parts, ";")
 }
 
-// readerEffect summarises a module-local helper taking the reader as its first parameter:
-// constant number of bytes consumed on every success path.
-func readerEffect(p *Prog, f *ssa.Function, depth int) (int64, bool) {
-	if depth > 3 || len(f.Params) == 0 || f.Blocks == nil {
-		return 0, false
-	}
-	rp := f.Params[0]
-	total := int64(0)
-	found := false
-	bad := false
-	if len(f.Blocks) != 1 {
-		return 0, false // helpers are straight-line today; anything else is not summarised
-	}
-	for _, in := range f.Blocks[0].Instrs {
-		c, ok := in.(*ssa.Call)
-		if !ok {
-			continue
-		}
-		uses := false
-		for _, a := range c.Call.Args {
-			if strip(a) == ssa.Value(rp) {
-				uses = true
-			}
-		}
-		if !uses {
-			continue
-		}
-		if isStdCall(c, "encoding/binary", "", "Read") && len(c.Call.Args) == 3 {
-			sz := fixedSize(derefType(strip(c.Call.Args[2]).Type()))
-			if sz <= 0 {
-				bad = true
-			}
-			total += sz
-			found = true
-			continue
-		}
-		bad = true
-	}
-	return total, found && !bad
+// r4summary is the effect of a module-local helper on the reader it is handed: on every path that may
+// succeed it consumes A*param[Sym]+B bytes (Sym < 0: a constant). Computed by the same path-sensitive
+// flow analysis as for protocol.Read itself, so helpers extracted from Read (or wrapping the primitive
+// reads differently) are analysed, not recognised.
+type r4summary struct {
+	OK   bool
+	Sym  int
+	A, B int64
+	Why  string
 }
+
+var r4sumCache = map[string]r4summary{}
+
+func r4Summarise(p *Prog, f *ssa.Function, rpIdx int, depth int) r4summary {
+	key := fmt.Sprintf("%p/%d", f, rpIdx)
+	if sm, ok := r4sumCache[key]; ok {
+		return sm
+	}
+	r4sumCache[key] = r4summary{Why: "recursive helper"}
+	sm := r4summarise(p, f, rpIdx, depth)
+	r4sumCache[key] = sm
+	return sm
+}
+
+func r4summarise(p *Prog, f *ssa.Function, rpIdx int, depth int) r4summary {
+	if depth > 4 || f.Blocks == nil || rpIdx >= len(f.Params) {
+		return r4summary{Why: "helper too deep or without a body"}
+	}
+	rp := f.Params[rpIdx]
+	if why := readerEscapes(rp); why != "" {
+		return r4summary{Why: why}
+	}
+	cands := []int{-1}
+	for i, prm := range f.Params {
+		if i != rpIdx && isInteger(prm.Type()) {
+			cands = append(cands, i)
+		}
+	}
+	why := ""
+	for _, ci := range cands {
+		var L ssa.Value
+		if ci >= 0 {
+			L = f.Params[ci]
+		}
+		rets, err := r4flow(p, f, rp, L, depth)
+		if err != "" {
+			return r4summary{Why: err}
+		}
+		ne := newNilEnv(p)
+		var first *aff
+		ok := true
+		nSucc := 0
+		for _, rr := range rets {
+			if !r4maySucceed(ne, rr.ret) {
+				continue
+			}
+			for _, st := range rr.states {
+				nSucc++
+				if st.dirty != "" {
+					ok, why = false, st.dirty
+					break
+				}
+				if len(st.lims) > 0 {
+					ok, why = false, "the helper leaves an io.LimitReader undrained on a path that may succeed"
+					break
+				}
+				c := st.cons
+				if k, has := st.eq[L]; has && L != nil {
+					c = aff{0, c.A*k + c.B, true}
+				}
+				if first == nil {
+					cc := c
+					first = &cc
+					continue
+				}
+				// equal, possibly under the path's fact on the symbol
+				if c == *first {
+					continue
+				}
+				if k, has := st.eq[L]; has && L != nil && first.A*k+first.B == c.B && c.A == 0 {
+					continue
+				}
+				ok, why = false, fmt.Sprintf("paths of %s consume different amounts (%s vs %s)", fname(f), *first, c)
+			}
+			if !ok {
+				break
+			}
+		}
+		if ok && first != nil && first.OK {
+			if ci < 0 && first.A != 0 {
+				continue
+			}
+			return r4summary{OK: true, Sym: ci, A: first.A, B: first.B}
+		}
+		if ok && nSucc == 0 {
+			return r4summary{OK: true, Sym: -1} // never succeeds: no constraint
+		}
+	}
+	if why == "" {
+		why = "consumption is not affine in one integer parameter"
+	}
+	return r4summary{Why: why}
+}
+
+// r4maySucceed: the return's error result (last result of type error, if any) is not provably non-nil.
+func r4maySucceed(ne *NilEnv, ret *ssa.Return) bool {
+	res := retResults(ret)
+	for i := len(res) - 1; i >= 0; i-- {
+		if isErrorType(res[i].Type()) {
+			if isNilConst(res[i]) {
+				return true
+			}
+			return ne.At(res[i], ret.Block()) != NonNil
+		}
+	}
+	return true
+}
+
+// readerEscapes: the reader parameter is only ever passed to calls (possibly boxed in an interface).
+func readerEscapes(rp *ssa.Parameter) string {
+	for _, ref := range *rp.Referrers() {
+		switch x := ref.(type) {
+		case ssa.CallInstruction:
+		case *ssa.MakeInterface:
+			for _, rr := range *x.Referrers() {
+				if _, ok := rr.(ssa.CallInstruction); !ok {
+					if _, isdbg := rr.(*ssa.DebugRef); !isdbg {
+						return "the reader is used by something other than a call: consumption cannot be tracked"
+					}
+				}
+			}
+		case *ssa.DebugRef:
+		default:
+			return fmt.Sprintf("the reader is used by %T, not a call: consumption cannot be tracked", ref)
+		}
+	}
+	return ""
+}
+
+type r4ret struct {
+	ret    *ssa.Return
+	states []*r4state
+}
+
+// r4flow propagates abstract states (bytes consumed as an affine form in L, undrained limit readers,
+// equality facts on compared integers) over the loop-free CFG of f.
+func r4flow(p *Prog, f *ssa.Function, rp ssa.Value, L ssa.Value, depth int) (rets []r4ret, err string) {
+	order, acyclic := topo(f)
+	if !acyclic {
+		return nil, fname(f) + " contains a loop: the affine consumption analysis only handles loop-free code"
+	}
+	in := map[*ssa.BasicBlock]map[string]*r4state{}
+	start := &r4state{cons: aff{0, 0, true}, lims: map[ssa.Value]aff{}, eq: map[ssa.Value]int64{}, neq: map[ssa.Value]map[int64]bool{}}
+	in[f.Blocks[0]] = map[string]*r4state{start.key(): start}
+	for _, b := range order {
+		if b == f.Recover {
+			continue
+		}
+		states := in[b]
+		var outs []*r4state
+		for _, s0 := range states {
+			s := s0.clone()
+			for _, instr := range b.Instrs {
+				r4apply(p, s, instr, rp, L, depth)
+			}
+			outs = append(outs, s)
+			r4nStates++
+		}
+		last := b.Instrs[len(b.Instrs)-1]
+		switch t := last.(type) {
+		case *ssa.Return:
+			rets = append(rets, r4ret{t, outs})
+		case *ssa.If:
+			for _, s := range outs {
+				for i, succ := range b.Succs {
+					ns := s.clone()
+					if !r4edge(ns, t.Cond, i == 0, L) {
+						continue // infeasible
+					}
+					addState(in, succ, ns)
+				}
+			}
+		default:
+			for _, s := range outs {
+				for _, succ := range b.Succs {
+					addState(in, succ, s.clone())
+				}
+			}
+		}
+	}
+	return rets, ""
+}
+
+var r4nStates int
 
 func fixedSize(t types.Type) int64 {
 	b, ok := t.Underlying().(*types.Basic)
@@ -731,115 +917,71 @@ var r4Hook func(ret *ssa.Return, states []*r4state)
 func c04R4(r *Report, read *ssa.Function, L ssa.Value) {
 	p := r.P
 	rp := read.Params[0]
-	// topological order; refuse loops
-	order, acyclic := topo(read)
-	if !acyclic {
-		r.Undecided("R4", "Read/loop-free", read.Pos(), "protocol.Read contains a loop: the affine consumption analysis only handles loop-free code")
+	r4sumCache = map[string]r4summary{}
+	r4nStates = 0
+	if why := readerEscapes(rp); why != "" {
+		r.Undecided("R4", "Read/reader-escapes", read.Pos(), "%s", why)
+	}
+	rets, ferr := r4flow(p, read, rp, L, 0)
+	if ferr != "" {
+		r.Undecided("R4", "Read/loop-free", read.Pos(), "%s", ferr)
 		return
 	}
-	// r must not escape other than as a call argument
-	for _, ref := range *rp.Referrers() {
-		switch x := ref.(type) {
-		case ssa.CallInstruction:
-		case *ssa.MakeInterface:
-			for _, rr := range *x.Referrers() {
-				if _, ok := rr.(ssa.CallInstruction); !ok {
-					if _, isdbg := rr.(*ssa.DebugRef); !isdbg {
-						r.Undecided("R4", "Read/reader-escapes", rr.Pos(), "the reader is used by something other than a call: consumption cannot be tracked")
-					}
-				}
-			}
-		case *ssa.DebugRef:
-		default:
-			r.Undecided("R4", "Read/reader-escapes", ref.Pos(), "the reader is used by %T, not a call: consumption cannot be tracked", ref)
-		}
-	}
-	in := map[*ssa.BasicBlock]map[string]*r4state{}
-	start := &r4state{cons: aff{0, 0, true}, lims: map[ssa.Value]aff{}, eq: map[ssa.Value]int64{}, neq: map[ssa.Value]map[int64]bool{}}
-	in[read.Blocks[0]] = map[string]*r4state{start.key(): start}
+	ne := newNilEnv(p)
 	nSuccess := 0
-	nStates := 0
-	for _, b := range order {
-		states := in[b]
-		var outs []*r4state
-		for _, s0 := range states {
-			s := s0.clone()
-			for _, instr := range b.Instrs {
-				r4apply(p, s, instr, rp, L)
-			}
-			outs = append(outs, s)
-			nStates++
+	for _, rr := range rets {
+		t, outs := rr.ret, rr.states
+		res := retResults(t)
+		if len(res) < 2 || !r4maySucceed(ne, t) {
+			continue
 		}
-		last := b.Instrs[len(b.Instrs)-1]
-		switch t := last.(type) {
-		case *ssa.Return:
-			if !isNilConst(t.Results[1]) {
+		nSuccess++
+		if r4Hook != nil {
+			r4Hook(t, outs)
+		}
+		key := fmt.Sprintf("Read/return(%s)", descVal(res[0]))
+		if len(outs) == 0 {
+			r.Info("R4", key, t.Pos(), "unreachable under the tracked path facts")
+			continue
+		}
+		okAll := true
+		var why []string
+		var shown []string
+		for _, s := range outs {
+			if s.dirty != "" {
+				okAll = false
+				why = append(why, s.dirty)
 				continue
 			}
-			nSuccess++
-			if r4Hook != nil {
-				r4Hook(t, outs)
-			}
-			key := fmt.Sprintf("Read/return(%s)", descVal(t.Results[0]))
-			if len(outs) == 0 {
-				r.Info("R4", key, t.Pos(), "unreachable under the tracked path facts")
+			if len(s.lims) > 0 {
+				okAll = false
+				why = append(why, "an io.LimitReader over the frame is not drained (io.Copy(io.Discard, lr)) before the successful return: the rest of the frame stays in the stream")
 				continue
 			}
-			okAll := true
-			var why []string
-			var shown []string
-			for _, s := range outs {
-				if s.dirty != "" {
+			// want: cons == 4 + L under s.eq[L]
+			if k, has := s.eq[L]; has {
+				got := s.cons.A*k + s.cons.B
+				if !s.cons.OK || got != 4+k {
 					okAll = false
-					why = append(why, s.dirty)
-					continue
-				}
-				if len(s.lims) > 0 {
-					okAll = false
-					why = append(why, "an io.LimitReader over the frame is not drained (io.Copy(io.Discard, lr)) before the successful return: the rest of the frame stays in the stream")
-					continue
-				}
-				// want: cons == 4 + L under s.eq[L]
-				if k, has := s.eq[L]; has {
-					got := s.cons.A*k + s.cons.B
-					if !s.cons.OK || got != 4+k {
-						okAll = false
-						why = append(why, fmt.Sprintf("with length==%d the path consumes %s = %d bytes, frame is %d", k, s.cons, got, 4+k))
-					} else {
-						shown = append(shown, fmt.Sprintf("length==%d: consumes %d", k, got))
-					}
-				} else if !s.cons.OK || s.cons.A != 1 || s.cons.B != 4 {
-					okAll = false
-					why = append(why, fmt.Sprintf("the path consumes %s bytes, the frame is 1*length+4", s.cons))
+					why = append(why, fmt.Sprintf("with length==%d the path consumes %s = %d bytes, frame is %d", k, s.cons, got, 4+k))
 				} else {
-					shown = append(shown, "consumes "+s.cons.String())
+					shown = append(shown, fmt.Sprintf("length==%d: consumes %d", k, got))
 				}
-			}
-			if okAll {
-				r.Ok("R4", key, t.Pos(), "every path to this successful return consumes exactly the frame (%s)", strings.Join(dedupe(shown), "; "))
+			} else if !s.cons.OK || s.cons.A != 1 || s.cons.B != 4 {
+				okAll = false
+				why = append(why, fmt.Sprintf("the path consumes %s bytes, the frame is 1*length+4", s.cons))
 			} else {
-				r.Fail("R4", key, t.Pos(), "successful return does not consume exactly 4+length bytes: %s", strings.Join(dedupe(why), "; "))
+				shown = append(shown, "consumes "+s.cons.String())
 			}
-		case *ssa.If:
-			for _, s := range outs {
-				for i, succ := range b.Succs {
-					ns := s.clone()
-					if !r4edge(ns, t.Cond, i == 0, L) {
-						continue // infeasible
-					}
-					addState(in, succ, ns)
-				}
-			}
-		default:
-			for _, s := range outs {
-				for _, succ := range b.Succs {
-					addState(in, succ, s.clone())
-				}
-			}
+		}
+		if okAll {
+			r.Ok("R4", key, t.Pos(), "every path to this successful return consumes exactly the frame (%s)", strings.Join(dedupe(shown), "; "))
+		} else {
+			r.Fail("R4", key, t.Pos(), "successful return does not consume exactly 4+length bytes: %s", strings.Join(dedupe(why), "; "))
 		}
 	}
 	r.Sentinel("R4", nSuccess, 20)
-	r.Notes = append(r.Notes, fmt.Sprintf("R4: %d abstract states propagated over %d blocks", nStates, len(order)))
+	r.Notes = append(r.Notes, fmt.Sprintf("R4: %d abstract states propagated (Read and %d summarised helpers)", r4nStates, len(r4sumCache)))
 }
 
 func dedupe(xs []string) []string {
@@ -931,12 +1073,12 @@ func r4edge(s *r4state, cond ssa.Value, pol bool, L ssa.Value) bool {
 	return true
 }
 
-func r4apply(p *Prog, s *r4state, instr ssa.Instruction, rp *ssa.Parameter, L ssa.Value) {
+func r4apply(p *Prog, s *r4state, instr ssa.Instruction, rp ssa.Value, L ssa.Value, depth int) {
 	c, ok := instr.(*ssa.Call)
 	if !ok {
 		if ci, isci := instr.(ssa.CallInstruction); isci {
 			for _, a := range ci.Common().Args {
-				if strip(a) == ssa.Value(rp) {
+				if strip(a) == rp {
 					s.dirty = "the reader is handed to a go/defer statement"
 				}
 			}
@@ -945,9 +1087,11 @@ func r4apply(p *Prog, s *r4state, instr ssa.Instruction, rp *ssa.Parameter, L ss
 	}
 	usesR := false
 	var usesLim ssa.Value
-	for _, a := range c.Call.Args {
-		if strip(a) == ssa.Value(rp) {
+	rIdx := -1
+	for i, a := range c.Call.Args {
+		if strip(a) == rp {
 			usesR = true
+			rIdx = i
 		}
 		if _, has := s.lims[strip(a)]; has {
 			usesLim = strip(a)
@@ -987,11 +1131,31 @@ func r4apply(p *Prog, s *r4state, instr ssa.Instruction, rp *ssa.Parameter, L ss
 		}
 		s.lims[c] = a
 	default:
-		if f := c.Call.StaticCallee(); f != nil && strings.HasPrefix(funcPkgPath(f), modPath) {
-			if n, ok := readerEffect(p, f, 0); ok {
-				add(aff{0, n, true}, "")
+		if isStdCall(c, "encoding/binary", "", "Read") && len(c.Call.Args) == 3 {
+			if sz := fixedSize(derefType(strip(c.Call.Args[2]).Type())); sz > 0 {
+				add(aff{0, sz, true}, "")
 				return
 			}
+		}
+		if f := c.Call.StaticCallee(); f != nil && strings.HasPrefix(funcPkgPath(f), modPath) && !c.Call.IsInvoke() {
+			sm := r4Summarise(p, f, rIdx, depth+1)
+			if sm.OK {
+				a := aff{0, sm.B, true}
+				if sm.Sym >= 0 && sm.A != 0 {
+					x := affineOf(c.Call.Args[sm.Sym], L, 0)
+					if !x.OK {
+						add(aff{}, fmt.Sprintf("call %s consumes a multiple of an argument that is not affine in the frame length", exprStr(c)))
+						return
+					}
+					a = aff{sm.A * x.A, sm.A*x.B + sm.B, true}
+				}
+				add(a, "")
+				return
+			}
+			if s.dirty == "" {
+				s.dirty = fmt.Sprintf("call %s: %s", exprStr(c), sm.Why)
+			}
+			return
 		}
 		if s.dirty == "" {
 			s.dirty = fmt.Sprintf("call %s reads from the stream by an amount the analysis cannot summarise", exprStr(c))
